@@ -83,7 +83,10 @@ def negotiate (req : Nat × Nat) : R (Nat × Nat) :=
 
 def isWordChar (b : Byte) : Bool := isAlnum b || b == 0x5F
 
-/-- `Status.parse`: `STATUS_RE` = `^([1-5]\d{2})(?:\s+([\s\w]*))?\Z`; group 2 is what follows the (greedy) whitespace run -/
+/-- the reason-phrase class of STATUS_RE since the F53 repair: `[\s\x21-\x7e]` -/
+def isReasonChar (b : Byte) : Bool := isPySpace b || (0x21 ≤ b && b ≤ 0x7E)
+
+/-- `Status.parse`: `STATUS_RE` = `^([1-5]\d{2})(?:\s+([\s\x21-\x7e]*))?\Z`; group 2 is what follows the (greedy) whitespace run -/
 def parseStatus (s : Bytes) : R (Nat × Bytes) :=
   match s with
   | d1 :: d2 :: d3 :: rest =>
@@ -92,7 +95,7 @@ def parseStatus (s : Bytes) : R (Nat × Bytes) :=
       | [] => .ok (decNat [d1, d2, d3], [])       -- the reason phrase may be missing altogether (the F51 repair)
       | w :: _ =>
         if !isPySpace w then .error .invalidLine
-        else if !rest.all (fun b => isPySpace b || isWordChar b) then .error .invalidLine
+        else if !rest.all isReasonChar then .error .invalidLine
         else .ok (decNat [d1, d2, d3], rest.dropWhile isPySpace)
   | _ => .error .invalidLine
 
